@@ -13,7 +13,7 @@ from sa.report import Ctx
 from .common import generic_sweeps
 from sa.stutter import stutter_paths
 
-from .sat_common import SatRoles, check_add_sites, check_assumption_assertion, check_analysis, check_assign, check_backtrack, check_bcp, check_heap_flags, check_variable_universe, check_input_copy
+from .sat_common import SatRoles, check_add_sites, check_assumption_assertion, check_analysis, check_assign, check_backtrack, check_bcp, check_main_loop, check_heap_flags, check_variable_universe, check_input_copy
 
 EXPLANATION = (
     "Decides structural necessary conditions of 'INFEASIBLE only without a model / always returns within budgets' on "
@@ -46,6 +46,7 @@ def run(ctx: Ctx):
     check_assign(ctx, "C02-O11")
     check_bcp(ctx, "C02-O12")
     check_analysis(ctx, "C02-O13")
+    check_main_loop(ctx, "C02-O14")
     check_input_copy(ctx, "C02-O9")
     generic_sweeps(ctx, skip_stutter_modules=("solvor/sat.py",))
 
@@ -425,6 +426,11 @@ def _v_analysis_keeps_true_literal(tree):
     M.replace_expr(g, lambda e: isinstance(e, ast.IfExp) and M.src_has(e, "lit_neg(lit)"), M.expr("lit"))
 
 
+def _v_no_backjump(tree):
+    g = M.find_func(tree, "solve_sat")
+    M.replace_stmt(g, lambda s: isinstance(s, ast.Expr) and M.src_is(s.value, "unassign_to(bt_level)"), [])
+
+
 def _v_flag_kept_on_skip(tree):
     g = M.find_func(tree, "solve_sat.pick_var")
     M.replace_stmt(g, lambda s: M.src_is(s, "in_heap[var] = False"), [])
@@ -481,6 +487,7 @@ VARIANTS = [
     M.Variant("assign records the previous decision level", SAT, _v_assign_level_of_previous, "C02-O11"),
     M.Variant("propagation treats a clause as unit although a replacement watch was found", SAT, _v_bcp_unit_without_search, "C02-O12"),
     M.Variant("conflict analysis puts true literals into the learned clause", SAT, _v_analysis_keeps_true_literal, "C02-O13"),
+    M.Variant("driver records the backjump level without undoing the trail", SAT, _v_no_backjump, "C02-O14"),
     M.Variant("twin: reformat only", SAT, _t_reformat, None),
     M.Variant("twin: rename locals of the backtrack routine", SAT, _t_rename, None),
     M.Variant("twin: comparisons written the other way round", SAT, _t_budget_flipped, None),
